@@ -147,7 +147,8 @@ def dds_hash(x: Any) -> PyHash:
             if not elt:
                 return _algo_bytes(b"\xff__DDS_EMPTY_DICT__")
             return _dds_hash([_hash_dict_tuple(k, v) for (k, v) in elt.items()], None)
-        if dataclasses.is_dataclass(elt):
+        if dataclasses.is_dataclass(elt) and not isinstance(elt, type):
+            # (a dataclass type is a class like any other: only instances have field values)
             names: List[str] = [f.name for f in dataclasses.fields(elt)]
             if not names:
                 return _algo_bytes(b"\xff__DDS_EMPTY_DATACLASS__")
